@@ -165,7 +165,18 @@ def replay_case(c):
         exp_cls = classes[c["tags"][tag]]
         for variant, ren in (("ren", True), ("inp", False)):
             site = "trim_disconnected/%s/%s" % (tag, "renumber" if ren else "inplace")
-            x = A.copy() if tag == "ndarray" else cls(A)
+            # element type and (dense) memory layout of the caller's matrix rotate over the cases: counts are
+            # small integers, exactly representable in each of the types
+            rot = int(A.sum()) + 3 * n + thr + (1 if ren else 0) + len(tag)
+            dt = ("int64", "float64", "int32", "float32")[rot % 4]
+            Ax = A.astype(dt)
+            if tag == "ndarray":
+                x = (Ax.copy(), np.asfortranarray(Ax), np.ascontiguousarray(Ax.T).T)[(rot // 4) % 3]
+            elif tag == "coo_matrix" and rot % 2 == 0 and int(A.sum()) > 0:
+                from props.c04 import make          # one entry of value 1 per count, as assigns_to_counts returns
+                x = make("coodup", A, dt)
+            else:
+                x = cls(Ax)
             try:
                 mapping, out = trim_disconnected(x, threshold=thr, renumber_states=ren)
                 got = _observe(mapping, out)
@@ -174,7 +185,7 @@ def replay_case(c):
                 continue
             if type(out) is not exp_cls:
                 bad.append((site + "/type", {"got": type(out).__name__, "expected": c["tags"][tag]}))
-            if type(x) is not cls or not np.array_equal(_dense(x), A):
+            if type(x) is not cls or x.dtype != np.dtype(dt) or not np.array_equal(_dense(x), A):
                 bad.append((site + "/input-modified", {"after": _dense(x).tolist(), "type": type(x).__name__}))
             k, diff = _match(got, alts, variant)
             if diff is None:
